@@ -179,8 +179,8 @@ def check_case(prop, case, il, ml, ctx):
         ctx["stats"]["evaluations"] += max(int(I.get("n", "1")) - 1, 0)
         _nontrivial(ctx, case, True)
         _kind(ctx, op + ":block")
-    elif op == "Z":
-        if il != ml:
+    elif op in ("Z", "ZI"):
+        if ml != "SKIPPED" and il != ml:
             probs.append(f"Z: implementation {il[:160]!r} model {ml[:160]!r}")
         # the property's own two implications on the implementation's answer
         if I.get("r") == "ok" and I.get("full") != "1":
